@@ -789,7 +789,13 @@ func (db *Default) ProfileByHumanID(
 		return nil, nil, fmt.Errorf("%s: %w", errPrefix, err)
 	}
 
-	if humanID != d.HumanIDLower {
+	if p.ID != id {
+		// The device has been moved to another profile, so the human ID is no
+		// longer valid within the requested one.
+		go db.removeHumanID(ctx, db.mapsGen, k)
+
+		return nil, nil, fmt.Errorf("%s: rechecking profile: %w", errPrefix, ErrDeviceNotFound)
+	} else if humanID != d.HumanIDLower {
 		// Perhaps, the device has changed its human ID, for example by being
 		// transformed into a normal device..  Remove it from our profile DB in
 		// a goroutine, since that requires a write lock.
